@@ -233,7 +233,7 @@ def run(ch: Choices, opts: Dict[str, Any]) -> Dict[str, Any]:
             trace.add("init", aid, ep["unit"])
             check_isolation(before, aid, "init")
             s0 = node.app_snapshot(aid)
-            if s0 != ((), (), (), (), tuple([None] * ep["unit"])):
+            if s0 != ((), (), (), (), tuple([None] * ep["unit"]), True):
                 raise Violation("I4", "I4|fresh-app-not-empty", {"app": aid, "state": s0, "trace": _tail(trace)})
             node.open_socket(aid, aid, GHOST, aid)
             yield None
